@@ -154,7 +154,10 @@ IndexEntry(sep, blk) == [sep |-> sep, blk |-> blk]
 
 (* TableWriter::add(e).  bcut: the current block is over block_size and is   *)
 (* written first (write_data_block(next_key = e)); pcut: the current index   *)
-(* partition is over index_partition_size and is closed first.               *)
+(* partition is over index_partition_size and is closed first.  Only a block *)
+(* that holds entries is written (`bcut => cur # <<>>`): the code's guard    *)
+(* `block.entries() > 0` (since fix 8dad511; before it a block_size below    *)
+(* the 8 bytes of an empty block made the first add() panic).                *)
 Add(e, bcut, pcut) ==
     /\ phase = "writing"
     /\ Len(E) < MaxEntries
